@@ -3,6 +3,7 @@ package main
 import (
 	"fmt"
 	"hash/fnv"
+	"math"
 	"strings"
 	"time"
 
@@ -20,13 +21,21 @@ import (
 type hop struct {
 	kind string // ins pop peek rm
 	key  int
-	at   int64
+	at   int64      // scheduled time: ns from the base clock ...
+	abs  *time.Time // ... or, if set, this instant (time-domain boundary family)
+}
+
+func (o hop) when(base time.Time) time.Time {
+	if o.abs != nil {
+		return *o.abs
+	}
+	return base.Add(time.Duration(o.at))
 }
 
 func (o hop) line(id int) string {
 	switch o.kind {
 	case "ins":
-		return fmt.Sprintf("h.ins key=%d at=%d id=%d", o.key, o.at, id)
+		return fmt.Sprintf("h.ins key=%d at=%s id=%d", o.key, bigNs(baseTime, o.when(baseTime)), id)
 	case "rm":
 		return fmt.Sprintf("h.rm key=%d", o.key)
 	}
@@ -52,7 +61,7 @@ func (r *runner) heapSeqOpt(ops []hop, label string, withModel bool) {
 	if r.stop() {
 		return
 	}
-	base := time.Unix(1700000000, 0).UTC()
+	base := baseTime
 	q := queue.NewVerifQueue[int, *item]()
 	dq := q // what is dumped after every operation (nothing if the model is not consulted)
 	if !withModel || r.drv == nil {
@@ -74,7 +83,7 @@ func (r *runner) heapSeqOpt(ops []hop, label string, withModel bool) {
 			lines = append(lines, o.line(id))
 			switch o.kind {
 			case "ins":
-				q.Insert(&item{key: o.key, at: base.Add(time.Duration(o.at)), id: id})
+				q.Insert(&item{key: o.key, at: o.when(base), id: id})
 				id++
 				want = append(want, dumpReal(dq))
 			case "rm":
@@ -173,9 +182,9 @@ func (r *runner) heapRemoveFamily(n, sample, every int) {
 		for rm := 0; rm < n; rm++ {
 			ops := make([]hop, 0, 2*n+1)
 			for i, t := range perm {
-				ops = append(ops, hop{"ins", i, int64(t + 1)})
+				ops = append(ops, hop{kind: "ins", key: i, at: int64(t + 1)})
 			}
-			ops = append(ops, hop{"rm", rm, 0})
+			ops = append(ops, hop{kind: "rm", key: rm, at: 0})
 			for i := 0; i < n; i++ {
 				ops = append(ops, hop{kind: "pop"})
 			}
@@ -200,11 +209,76 @@ func (r *runner) heapRemoveFamily(n, sample, every int) {
 	rec(0)
 }
 
+// boundaryTimes: the corners of the time domain. Scheduled times are time.Time values; nothing in the
+// queue or the processor may depend on their fitting into int64 nanoseconds (UnixNano) or on a span
+// fitting into a time.Duration.
+var boundaryTimes = []time.Time{
+	{}, // the zero Time (year 1)
+	time.Date(1, 1, 2, 0, 0, 0, 0, time.UTC),
+	time.Unix(0, math.MinInt64).Add(-time.Nanosecond), // just below the UnixNano range (1677-09-21)
+	time.Unix(0, math.MinInt64),
+	time.Unix(0, math.MinInt64).Add(time.Nanosecond),
+	time.Unix(0, math.MaxInt64).Add(-time.Nanosecond), // 2262-04-11
+	time.Unix(0, math.MaxInt64),
+	time.Unix(0, math.MaxInt64).Add(time.Nanosecond), // just above the UnixNano range
+	time.Date(9999, 12, 31, 23, 59, 59, 0, time.UTC), // a "never" sentinel
+	time.Unix(1<<62, 0),
+}
+
+// heapTimeDomain: boundary instants mixed with ordinary near-future times: every ordered triple of a
+// pool of instants is inserted and popped (execution order must be time.Time order), plus random
+// sequences with replacements and removals drawn from the pool.
+func (r *runner) heapTimeDomain(rnd *lib.Rand, n int) {
+	var pool []hop
+	for i := range boundaryTimes {
+		t := boundaryTimes[i]
+		pool = append(pool, hop{kind: "ins", abs: &t})
+	}
+	for _, off := range []int64{-1000000, 0, 1, 10000000} {
+		pool = append(pool, hop{kind: "ins", at: off})
+	}
+	for a := range pool {
+		for b := range pool {
+			for c := range pool {
+				if a == b || b == c || a == c {
+					continue
+				}
+				ops := []hop{pool[a], pool[b], pool[c]}
+				for i := range ops {
+					ops[i].key = i
+				}
+				ops = append(ops, hop{kind: "pop"}, hop{kind: "pop"}, hop{kind: "pop"})
+				r.heapSeq(ops, "timedomain-triples")
+			}
+		}
+	}
+	for i := 0; i < n; i++ {
+		m := rnd.Range(6, 40)
+		ops := make([]hop, 0, m)
+		for j := 0; j < m; j++ {
+			switch x := rnd.Intn(10); {
+			case x < 6:
+				o := pool[rnd.Intn(len(pool))]
+				o.key = rnd.Intn(8)
+				ops = append(ops, o)
+			case x < 8:
+				ops = append(ops, hop{kind: "pop"})
+			default:
+				ops = append(ops, hop{kind: "rm", key: rnd.Intn(8)})
+			}
+		}
+		for j := 0; j < 8; j++ {
+			ops = append(ops, hop{kind: "pop"})
+		}
+		r.heapSeq(ops, "timedomain-random")
+	}
+}
+
 var heapTimes = []int64{0, 1, 1, 2, 3, 3, 5, 8}
 
 func (r *runner) heapDiff(rnd *lib.Rand, n int) {
 	// exhaustive small scope: all sequences of length <= 5 over {ins k∈{0,1} t∈{1,2}, pop, rm 0}, then peek
-	alphabet := []hop{{"ins", 0, 1}, {"ins", 0, 2}, {"ins", 1, 1}, {"ins", 1, 2}, {"ins", 2, 1}, {"pop", 0, 0}, {"rm", 0, 0}, {"rm", 1, 0}}
+	alphabet := []hop{{kind: "ins", key: 0, at: 1}, {kind: "ins", key: 0, at: 2}, {kind: "ins", key: 1, at: 1}, {kind: "ins", key: 1, at: 2}, {kind: "ins", key: 2, at: 1}, {kind: "pop", key: 0, at: 0}, {kind: "rm", key: 0, at: 0}, {kind: "rm", key: 1, at: 0}}
 	var rec func(prefix []hop, depth int)
 	rec = func(prefix []hop, depth int) {
 		if depth == 0 {
@@ -226,6 +300,8 @@ func (r *runner) heapDiff(rnd *lib.Rand, n int) {
 		r.heapRemoveFamily(7, 16, 1)
 		r.heapRemoveFamily(8, 100, 8)
 	}
+	// the corners of the time domain
+	r.heapTimeDomain(rnd, n/3+50)
 	// random long sequences with many ties and replacements
 	for i := 0; i < n; i++ {
 		m := rnd.Range(5, 60)
@@ -234,13 +310,13 @@ func (r *runner) heapDiff(rnd *lib.Rand, n int) {
 		for j := 0; j < m; j++ {
 			switch x := rnd.Intn(10); {
 			case x < 5:
-				ops = append(ops, hop{"ins", rnd.Intn(keys), heapTimes[rnd.Intn(len(heapTimes))]})
+				ops = append(ops, hop{kind: "ins", key: rnd.Intn(keys), at: heapTimes[rnd.Intn(len(heapTimes))]})
 			case x < 7:
-				ops = append(ops, hop{"pop", 0, 0})
+				ops = append(ops, hop{kind: "pop", key: 0, at: 0})
 			case x < 9:
-				ops = append(ops, hop{"rm", rnd.Intn(keys), 0})
+				ops = append(ops, hop{kind: "rm", key: rnd.Intn(keys), at: 0})
 			default:
-				ops = append(ops, hop{"peek", 0, 0})
+				ops = append(ops, hop{kind: "peek", key: 0, at: 0})
 			}
 		}
 		r.heapSeq(ops, "random")
